@@ -573,6 +573,15 @@ func (m *metadataAPI) ShrinkISR(ctx context.Context, req *proto.ShrinkISROp) *st
 				req.ReplicaToRemove, req.Stream, req.Partition))
 	}
 
+	// Ensure the replica being removed is actually a replica. The operation
+	// cannot be applied otherwise.
+	if !partition.inReplicas(req.ReplicaToRemove) {
+		return status.New(
+			codes.FailedPrecondition,
+			fmt.Sprintf("Broker %s is not a replica for partition [stream=%s, partition=%d]",
+				req.ReplicaToRemove, req.Stream, req.Partition))
+	}
+
 	// Replicate ISR shrink through Raft.
 	op := &proto.RaftLog{
 		Op:          proto.Op_SHRINK_ISR,
@@ -622,6 +631,15 @@ func (m *metadataAPI) ExpandISR(ctx context.Context, req *proto.ExpandISROp) *st
 			codes.FailedPrecondition,
 			fmt.Sprintf("Leader generation mismatch, current leader: %s epoch: %d, got leader: %s epoch: %d",
 				leader, epoch, req.Leader, req.LeaderEpoch))
+	}
+
+	// Ensure the replica being added is actually a replica. The operation
+	// cannot be applied otherwise.
+	if !partition.inReplicas(req.ReplicaToAdd) {
+		return status.New(
+			codes.FailedPrecondition,
+			fmt.Sprintf("Broker %s is not a replica for partition [stream=%s, partition=%d]",
+				req.ReplicaToAdd, req.Stream, req.Partition))
 	}
 
 	// Replicate ISR expand through Raft.
